@@ -13,6 +13,7 @@ harness error (exit 2) — python is never silently compared with python.
 """
 from __future__ import annotations
 
+import copy
 import importlib
 import math
 import os
@@ -121,19 +122,25 @@ def _call4(ctx, fname, make_args, kwargs):
     modname, kernel = WHERE[fname]
     fn = getattr(importlib.import_module(modname), fname)
     out = {}
+    mutated = {}
     for b in BACKENDS:
         kw = dict(kwargs)
         if b != "default":
             kw["backend"] = b
         before = _kernel_calls[kernel]
+        args = make_args()
+        pristine = copy.deepcopy(args)
         try:
-            out[b] = ctx.call(fn, *make_args(), **kw)
+            out[b] = ctx.call(fn, *args, **kw)
         except Crash:
             raise
         except BaseException as e:  # a Rust panic surfaces as pyo3's PanicException (a BaseException)
             if type(e).__name__ == "PanicException":
                 raise Violation(f"{fname}:rust-panic", {"backend": b, "message": str(e)[:300]})
             raise
+        if args != pristine:
+            # a back-end that edits the caller's arguments makes itself visible in later calls on the same objects
+            mutated[b] = True
         used = _kernel_calls[kernel] - before
         if b == "python":
             if used:
@@ -141,6 +148,8 @@ def _call4(ctx, fname, make_args, kwargs):
         elif not used:
             raise HarnessError(f"C12: {fname}(backend={b!r}) returned without calling the extension; python would be compared with python")
         ctx.count("extension-calls", used)
+    if mutated and len(mutated) != len(BACKENDS):
+        raise Violation(f"{fname}:arguments-mutated-by-some-backends-only", {"mutating": sorted(mutated), "all": list(BACKENDS)})
     return out
 
 
